@@ -195,6 +195,13 @@ def main():
     # 1. regression replays (minimal cases of fixed defects and earlier violations)
     rdir = os.path.join(ROOT, "regress", prop)
     nreg = 0
+    # the replays run in this process: guard them against a hang as the shards are guarded
+    import signal
+
+    def _alarm(signum, frame):
+        raise core.HarnessError("regression replays exceeded the wall-clock guard")
+    signal.signal(signal.SIGALRM, _alarm)
+    signal.alarm(int(os.environ.get("VERIF_SHARD_GUARD_S", "900")))
     if os.path.isdir(rdir):
         for fn in sorted(os.listdir(rdir)):
             if fn.endswith(".json"):
@@ -207,6 +214,7 @@ def main():
                     nreg += 1
                 except core.HarnessError as e:
                     harness.append("regress/%s/%s: %s" % (prop, fn, e))
+    signal.alarm(0)
     total.count("regression_replays", nreg)
 
     # 2. generated search, sharded
